@@ -3022,7 +3022,9 @@ func (b *IPRouteBody) decodeFromBytes(data []byte, version uint8, software Softw
 	}
 
 	b.backupNexthops = []Nexthop{} // backupNexthops is added in frr7.4
-	if b.Message&messageBackupNexthops.ToEach(version, software) > 0 {
+	// (before frr7.4 the bit 0x40 is MESSAGE_LABEL on ZAPI 5 and until frr7.2, and unused in frr7.3)
+	if version == 6 && software.name == "frr" && software.version >= 7.4 &&
+		b.Message&messageBackupNexthops.ToEach(version, software) > 0 {
 		if rest < pos {
 			return errors.New("IPRouteBody backupnexthops data length is too short")
 		}
